@@ -21,6 +21,7 @@ package theine
 // Every sequence to the depth bound on every configuration; nothing sampled; sharded by case number.
 
 import (
+	"bytes"
 	"context"
 	"fmt"
 	"runtime"
@@ -151,9 +152,13 @@ func apExec(res *vh.Result, prop string, cfg apCfg, ops []apiOp) string {
 	var obs []string
 	for i, op := range ops {
 		switch op.Kind {
-		case "set":
+		case "set", "setttl":
 			nextV++
-			if a.set(op.K, nextV, 1, 0) {
+			ttl := time.Duration(0)
+			if op.Kind == "setttl" {
+				ttl = 3 * time.Hour
+			}
+			if a.set(op.K, nextV, 1, ttl) {
 				latest[op.K] = nextV
 				obs = append(obs, "t")
 			} else {
@@ -207,6 +212,50 @@ func apExec(res *vh.Result, prop string, cfg apCfg, ops []apiOp) string {
 			_ = a.del(op.K)
 			delete(latest, op.K)
 			obs = append(obs, "d")
+		case "reload":
+			// SaveCache, LoadCache into a fresh cache of the same configuration (sharing the secondary store of a
+			// hybrid kind), Close the old one and go on with the new one. What a reload may drop is C11's subject;
+			// here only what is served afterwards is judged, so the reference forgets what neither tier holds any more.
+			var buf bytes.Buffer
+			if err := a.save(&buf); err != nil {
+				viol("C11", "save-fails", cfg.Kind, "call %d: SaveCache: %v", i, err)
+				return cfg.String() + "|save-error"
+			}
+			nb, err := apBuild(cfg)
+			if err != nil {
+				return cfg.String() + "|build-error"
+			}
+			if hybrid {
+				nb.sec.mu.Lock()
+				a.sec.mu.Lock()
+				for k, e := range a.sec.m {
+					nb.sec.m[k] = e
+				}
+				a.sec.mu.Unlock()
+				nb.sec.mu.Unlock()
+			}
+			nb.loads = a.loads
+			if err := nb.load(3, &buf); err != nil {
+				viol("C11", "load-fails", cfg.Kind, "call %d: LoadCache of the stream just saved: %v", i, err)
+				nb.close()
+				return cfg.String() + "|load-error"
+			}
+			a.close()
+			*a = *nb
+			nnotes = 0
+			obs = append(obs, "r")
+			now, ok := a.rest()
+			if !ok {
+				return cfg.String() + "|stuck"
+			}
+			for k := range latest {
+				_, inMem := now[k]
+				_, inSec := a.sec.has(k)
+				if !inMem && !(hybrid && inSec) {
+					delete(latest, k)
+				}
+			}
+			before = now
 		}
 		after, ok := a.rest()
 		if !ok {
@@ -238,7 +287,7 @@ func apExec(res *vh.Result, prop string, cfg apCfg, ops []apiOp) string {
 				_, still := after[k]
 				// the entry left if the key is gone; an in-place update keeps the entry (no notification) and changes
 				// the value the entry will be reported with
-				if op.Kind == "set" && op.K == k && obs[len(obs)-1] == "t" {
+				if (op.Kind == "set" || op.Kind == "setttl") && op.K == k && obs[len(obs)-1] == "t" {
 					v = latest[k]
 				}
 				if !still {
@@ -250,7 +299,7 @@ func apExec(res *vh.Result, prop string, cfg apCfg, ops []apiOp) string {
 				}
 			}
 			// an entry stored by this very call and already gone again (refused admission) is reported too
-			if op.Kind == "set" || (op.Kind == "get" && loading) {
+			if op.Kind == "set" || op.Kind == "setttl" || (op.Kind == "get" && loading) {
 				if lv, live := latest[op.K]; live {
 					if _, was := before[op.K]; !was {
 						if _, is := after[op.K]; !is && obs[len(obs)-1] != "f" && !(op.Kind == "get" && strings.HasSuffix(obs[len(obs)-1], "/0")) {
@@ -308,8 +357,13 @@ func apCfgs() []apCfg {
 	return out
 }
 
+var apExt bool // param ext=1: SetWithTTL and save/load/continue among the calls
+
 func apAlphabet() []apiOp {
 	var out []apiOp
+	if apExt {
+		out = append(out, apiOp{"setttl", 1}, apiOp{"setttl", 2}, apiOp{"reload", 0})
+	}
 	for _, k := range []int{1, 2, 3} {
 		out = append(out, apiOp{"set", k}, apiOp{"get", k})
 	}
@@ -329,6 +383,7 @@ func TestVerif_APIPressure(t *testing.T) {
 	defer res.Write()
 	depth := env.Int("depth", 4)
 	apMax = env.Int("max", 2)
+	apExt = env.Int("ext", 0) == 1
 	res.Bounds["depth"], res.Bounds["keys"], res.Bounds["maxsize"], res.Bounds["configurations"] = depth, 3, apMax, len(apCfgs())
 	if env.Replay != "" {
 		var rp struct {
